@@ -89,18 +89,11 @@ theorem parseLine_textForAttribute_never_panics (st st' : ParserState) (input : 
 /-! Non-vacuity: results with attributes exist (the lines of DESIGN §5 C15 that used to break the range), and the guard of
 `TextForAttribute` is real: outside the range it does panic. -/
 
-example : ∃ st' res, parseRunes {} " [b]x[/b]".toList = (st', .ok res) ∧ res.attrs.length = 1 := by
-  refine ⟨(parseRunes {} " [b]x[/b]".toList).1, ?_⟩
-  cases h : (parseRunes {} " [b]x[/b]".toList) with
-  | mk st' o =>
-    cases o with
-    | ok res => exact ⟨res, rfl, by
-        have : (match (parseRunes {} " [b]x[/b]".toList).2 with | .ok r => r.attrs.length | _ => 0) = 1 := by decide +kernel
-        rw [h] at this; exact this⟩
-    | err => exfalso; have : (parseRunes {} " [b]x[/b]".toList).2 ≠ .err := by decide +kernel
-             rw [h] at this; exact this rfl
-    | panic => exfalso; have : (parseRunes {} " [b]x[/b]".toList).2 ≠ .panic := by decide +kernel
-               rw [h] at this; exact this rfl
+example : (match (parseRunes {} " [b]x[/b]".toList).2 with
+    | .ok r => r.attrs.map (fun a => (a.position, a.length)) | _ => []) = [(0, 1)] := by decide +kernel
+example : (match (parseRunes {} "Hello: ".toList).2 with
+    | .ok r => (r.text.length, r.attrs.map (fun a => (a.position, a.length))) | _ => (0, [])) = (6, [(0, 6)]) := by
+  decide +kernel
 
 example : textForAttribute { text := "x", attrs := [] }
     { name := "b", position := 1, length := 1, sourcePosition := 0, props := [] } = .panic := by decide +kernel
